@@ -726,9 +726,11 @@ def _round_trip_tables(ctx: Ctx):
     if wt is None or rt is None:
         raise AnalysisError("C11: write_trn / read_trn_iter not found")
     trs = [("u1", ["hello", "world"]), ("u 2", [("a", 0.5, 1.0), "b"]), ("u3", ["x", ([["y"], ["z", "w"]], -1, -1), "v"]),
-           ("u4", [([["p", [["q"], ["r"]]], ["s"]], -1, -1)]), ("u5", []), ("u6", [("c", 1, 2), ([["d"], ["e"]], -1, -1)])]
+           ("u4", [([["p", [["q"], ["r"]]], ["s"]], -1, -1)]), ("u5", []), ("u6", [("c", 1, 2), ([["d"], ["e"]], -1, -1)]),
+           (" c ", ["f"]), ("spk1 ", ["g"]), ("spk1", ["h"])]  # (blanks are part of an utterance id)
     want = [("u1", ["hello", "world"]), ("u 2", ["a", "b"]), ("u3", ["x", ([["y"], ["z", "w"]], -1, -1), "v"]),
-            ("u4", [([["p", [["q"], ["r"]]], ["s"]], -1, -1)]), ("u5", []), ("u6", ["c", ([["d"], ["e"]], -1, -1)])]
+            ("u4", [([["p", [["q"], ["r"]]], ["s"]], -1, -1)]), ("u5", []), ("u6", ["c", ([["d"], ["e"]], -1, -1)]),
+            (" c ", ["f"]), ("spk1 ", ["g"]), ("spk1", ["h"])]
     try:
         text, err = written(wt, {wt.args.args[0].arg: trs})
         got = None
@@ -748,8 +750,11 @@ def _round_trip_tables(ctx: Ctx):
     if wc is None or rc is None:
         raise AnalysisError("C11: write_ctm / read_ctm not found")
     tc = [("uB", [("x", 1.5, 2.0), ("w", 0.0, 0.5), ("y", 2.0, 2.0)]), ("uA", [("k", 0.25, 1.0)]), ("uC", [("m", 3.0, 3.5), ("l", 0.5, 3.0)])]
-    for tag, utt2wc, wc2utt in (("channel", "A", None), ("map", {"uA": ("f2", "1"), "uB": ("f1", "2"), "uC": ("f1", "1")},
-                                                         {("f2", "1"): "uA", ("f1", "2"): "uB", ("f1", "1"): "uC"})):
+    import types
+    _map = {"uA": ("f2", "1"), "uB": ("f1", "2"), "uC": ("f1", "1")}
+    _inv = {("f2", "1"): "uA", ("f1", "2"): "uB", ("f1", "1"): "uC"}
+    # (the mapping may be any Mapping - here also a read-only view of a dictionary)
+    for tag, utt2wc, wc2utt in (("channel", "A", None), ("map", _map, _inv), ("read-only map", types.MappingProxyType(_map), _inv)):
         try:
             text, err = written(wc, {wc.args.args[0].arg: tc, wc.args.args[2].arg: utt2wc})
             got = None
